@@ -295,3 +295,65 @@ def check_C13(tier):
         if not okk:
             raise ToolError("binding self-test failed")
     return res.finish()
+
+
+def deconv_descriptor(rec, clause):
+    return {"family": rec.get("fam"), "clause": clause, "what": rec.get("what"), "case": rec.get("case"),
+            "wire": rec.get("wire"), "verdict": rec.get("verdict")}
+
+
+def check_C17(tier):
+    res = Result("C17", tier, "model_checking")
+    res.rule = ("E1 (Greedy.tla / MC_Greedy): every signal of length 5 (thorough 6) over {-16,-8,-4,0,4}*64, four "
+                "responses with -1/-2/-4 inside the window and any sign outside, every window (offset 0..1, look-ahead "
+                "1..3) on which the window is negative: the skip-ahead loop equals the plain one-sample-at-a-time sweep "
+                "(inputs and residuals), outputs are non-negative. E2 (exact-arithmetic replay, hook H2): the cases with "
+                "an emission and only exact quotients (quick: 1/16 of them) are run through the crate-private "
+                "nn_greedy_deconvolution and ls_deconvolution; every f64 operation is exact on them, so Trace_Greedy "
+                "compares input vector, residual sum of squares and the grid pick with the plain definition bit for bit. "
+                "E3 on the shipped responses: pad_deconvolution on 300 (20000) waveforms of 1..700 samples (0..8 "
+                "response-shaped pulses incl. the last look-ahead samples, noise, rounded or not) and wire blocks of "
+                "lengths 1..256 at ring positions incl. the seam with differing per-wire lengths: output shape, finite, "
+                ">= 0; an isolated pulse of amplitude 1/80/1e4 on each of the 256 wires recovered within 1e-6 and zero "
+                "elsewhere; calibrated samples of simulated events x 2^k, k=-3..6, through try_from_banks: amplitudes "
+                "scale exactly (f64 exponent + k), wire/time/z bit-identical. distinct_nontrivial = replayed exact cases "
+                "+ pulse placements + scaled events")
+    res.assumptions = ["Greedy.tla is the plain definition; bit-equality with it is decided on exact-arithmetic inputs only (not on the shipped non-dyadic responses)",
+                       "wire outputs are as long as the longest channel of their block (zero padding), which is what 'one output sample per input sample' is checked against"]
+    siglen = 5 if tier == "quick" else 6
+    cfg = write_cfg("MC_Greedy_" + tier, constants={"SigLen": siglen, "Tier": '"%s"' % tier},
+                    invariants=["WindowNegative", "SkipEqualsPlain", "NonNegative", "Export"])
+    r = tlc_model_check("MC_Greedy", cfg, "mc_greedy_" + tier, expect_actions=["Pick", "Run"], workers=8, timeout=3600)
+    res.add_mc(r)
+    cells = os.path.join(BUILD, "traces", "C17_cells.ndjson")
+    nc = extract_replay_to_file(r, cells)
+    if nc == 0:
+        raise ToolError("no exact cases exported")
+    trace = os.path.join(BUILD, "traces", "C17_trace.ndjson")
+    res.evaluations += run_vh(["deconv", "--data", os.path.join(REPO, "physics", "data"), "--in", cells, "--seed", str(seed()),
+                               "--tier", tier], trace, timeout=7200)
+    for k, part in enumerate(split_file(trace, 30000)):
+        validate_dec_trace(res, part, "C17_%d" % k, module="Trace_Greedy", descriptor=deconv_descriptor)
+    fams = {}
+    with open(trace) as f:
+        for line in f:
+            rec = json.loads(line)
+            fams[rec["fam"]] = fams.get(rec["fam"], 0) + 1
+            if len(res.samples) < 4 and rec["fam"] in ("greedy", "pulse") and fams[rec["fam"]] == 1:
+                res.add_sample(slim(rec, 12), 4)
+    res.distinct = fams.get("greedy", 0) + fams.get("pulse", 0) + fams.get("scale", 0)
+    res.extra["records_by_family"] = fams
+    if tier == "thorough":
+        for line in open(trace):
+            rec = json.loads(line)
+            if rec["fam"] == "greedy" and any(x > 0 for x in rec["input"]):
+                break
+        rec["input"] = [x + (64 if x > 0 else 0) for x in rec["input"]]
+        p2 = trace + ".selftest"
+        open(p2, "w").write(json.dumps(rec) + "\n")
+        _, mism, _ = tlc_validate("Trace_Greedy", p2, "C17_self")
+        okk = any(m[0] == rec["i"] for m in mism)
+        res.extra["binding_selftest"] = {"corrupted_record": rec["i"], "rejected": okk, "how": "changed one recovered amplitude"}
+        if not okk:
+            raise ToolError("binding self-test failed")
+    return res.finish()
